@@ -146,7 +146,12 @@ def crash_failure(prop, exc, step, what):
     """Turn an exception raised while executing a *valid* operation into a failure record, or
     re-raise it as a HarnessError when no frame of the code under test is involved."""
     where = pygom_frame(exc)
-    if where is None or isinstance(exc, HarnessError):
+    tb = exc.__traceback__
+    while tb is not None and tb.tb_next is not None:
+        tb = tb.tb_next
+    raised_in = os.path.realpath(tb.tb_frame.f_code.co_filename) if tb is not None else ""
+    in_harness = raised_in.startswith(os.path.join(VERIF, "pgsim")) and type(exc).__name__ != "InjectedFault"
+    if where is None or isinstance(exc, HarnessError) or in_harness:
         raise HarnessError("harness exception during %s: %r\n%s" % (
             what, exc, "".join(traceback.format_exception(type(exc), exc, exc.__traceback__))))
     return fail("%s.crash.%s@%s" % (prop, type(exc).__name__, where.split(":")[1]), step,
